@@ -1,5 +1,5 @@
 (* Union/ProofsPropsX.v — proofs of the statements of PropsX.v that need more than one lemma application. *)
-From Verif Require Import Base.Lex Union.Model Union.ModelX Union.ProofsMap Union.ProofsBuf Union.ProofsX Union.ProofsSize.
+From Verif Require Import Base.Lex Union.Model Union.ModelX Union.ProofsMap Union.ProofsBuf Union.ProofsX Union.ProofsSize Union.ProofsBatch.
 From Coq Require Import Sorted ZifyN ZifyNat.
 Notation sorted := (dsorted false).
 
@@ -74,4 +74,46 @@ Proof.
     apply (xinv_run _ _ ops st1) in Hi; [|exact Ho]. destruct Hi as [Hi _].
     pose proof (base_log_inv _ _ Hi) as E.
     unfold x_snap_get, x_snap_iter, x_snap_iter_rev, x_snap_map. rewrite E. repeat split; reflexivity.
+Qed.
+
+Lemma kv_get_fold_put (l : list (key * val)) k :
+  kv_get (fold_right (fun e m => kv_put (fst e) (snd e) m) [] l) k = kv_get l k.
+Proof.
+  induction l as [|[k0 v0] l IH]; cbn [fold_right kv_get fst snd]; [reflexivity|].
+  rewrite kv_get_put, IH. reflexivity.
+Qed.
+
+Lemma C07_snapshot_batch_get_proof : forall st snap keys, no_tomb snap -> dsorted false snap ->
+  let '(handed, res) := x_snap_batch_get snap st keys in
+  handed = filter (fun k => match x_snap_get st k with None => true | Some _ => false end) keys /\
+  dsorted false res /\
+  forall k, kv_get res k =
+    if key_mem k keys
+    then match (match x_snap_get st k with Some v => Some v | None => kv_get snap k end) with
+         | Some v => if is_tomb v then None else Some v
+         | None => None
+         end
+    else None.
+Proof.
+  intros st snap keys Hn Hs. unfold x_snap_batch_get.
+  pose proof (Union.ProofsBatch.batch_get_spec snap (x_snap_map st) keys Hn Hs) as H.
+  destruct (buffer_batch_get snap (x_snap_map st) keys) as [handed res].
+  destruct H as (Hh & Hr & Hg). split; [|split; [exact Hr|]].
+  - rewrite Hh. apply filter_ext. intros k. unfold Union.ProofsBatch.unbuffered, x_snap_map, x_snap_get.
+    rewrite kv_get_fold_put. reflexivity.
+  - intros k. rewrite Hg. destruct (key_mem k keys); [|reflexivity].
+    unfold union_get, x_snap_map, x_snap_get. rewrite kv_get_fold_put. reflexivity.
+Qed.
+
+(* MemDB.BatchGet returns early when Len() = 0: sound, because every buffered key is counted *)
+Lemma C07_len_zero_proof : forall ops,
+  let st := xrun ops xbuf_empty in
+  x_len st = 0 -> forall k, buf_get (x_b st) k = None /\ x_get_flags st k = None.
+Proof.
+  intros ops st H k. destruct (xwf_run ops xbuf_empty xwf_empty) as (Hs & Hl & Hk). fold st in Hs, Hl, Hk.
+  rewrite Hl in H. assert (E : x_kf st = []) by (destruct (x_kf st); [reflexivity|cbn in H; lia]).
+  split.
+  - destruct (buf_get (x_b st) k) eqn:B; [|reflexivity]. exfalso.
+    apply (Hk k); [unfold buf_get in B; congruence|rewrite E; reflexivity].
+  - unfold x_get_flags, fl_get. rewrite E. reflexivity.
 Qed.
